@@ -32,8 +32,13 @@ def main():
     patch = os.path.join(d, "patch.diff")
     p = subprocess.run(["git", "-C", "/repo", "apply", patch], capture_output=True, text=True)
     if p.returncode != 0:
-        print("patch does not apply:", p.stderr)
-        return 2
+        # the tree has moved since the change was written (hooks, repairs): same edit, shifted context
+        p = subprocess.run(["patch", "-p1", "-F3", "--no-backup-if-mismatch", "-i", patch], cwd="/repo", capture_output=True, text=True)
+        if p.returncode != 0:
+            subprocess.run(["git", "-C", "/repo", "checkout", "--", "."], check=False)
+            print("patch does not apply:", p.stdout[-400:], p.stderr[-400:])
+            return 2
+        meta["applied_with_fuzz"] = True
     res = {}
     try:
         for c in checks:
